@@ -55,11 +55,15 @@ def _filtered_sweep_defs(f, sweep, fixed):
     defs = [s for s in nodes if isinstance(s, ast.Assign) and any(is_name(t, sweep) for t in s.targets)]
     ok = bool(defs)
 
+    from .drivers import fixed_aliases
+
+    aliases = fixed_aliases(f, fixed)  # frozen = [] if fixed_modes is None else fixed_modes
+
     def not_in_fixed(c, var):
-        return isinstance(c, ast.Compare) and len(c.ops) == 1 and isinstance(c.ops[0], ast.NotIn) and is_name(c.left, var) and is_name(c.comparators[0], fixed)
+        return isinstance(c, ast.Compare) and len(c.ops) == 1 and isinstance(c.ops[0], ast.NotIn) and is_name(c.left, var) and isinstance(c.comparators[0], ast.Name) and c.comparators[0].id in aliases
 
     def in_fixed(c, var):
-        return isinstance(c, ast.Compare) and len(c.ops) == 1 and isinstance(c.ops[0], ast.In) and is_name(c.left, var) and is_name(c.comparators[0], fixed)
+        return isinstance(c, ast.Compare) and len(c.ops) == 1 and isinstance(c.ops[0], ast.In) and is_name(c.left, var) and isinstance(c.comparators[0], ast.Name) and c.comparators[0].id in aliases
 
     for s in defs:
         v = s.value
